@@ -25,7 +25,7 @@ S4 the default breakpoints separate the inflection points (f'' keeps its sign in
 """
 import math
 import re
-from ..cfg import Facts, kids, strip, walk, cv, render, call_args, call_object
+from ..cfg import norm_facts, xrender, expand_locals, Facts, kids, strip, walk, cv, render, call_args, call_object
 from ..cfg import short_loc as _short_loc
 from ..facts import export_many, AnalysisBroken
 
@@ -380,9 +380,9 @@ def run(rep, ctx):
     f2 = rep.rule("C13.F2", "GUARD", "integer shortcut: all integers of the domain, only when not more than the PL points, x integer, not periodic", floor=3)
     ci = one("ConsiderIntegrality")
     ap = calls(ci, "AddPoint")
-    fa = [(render(ci.nodes[cid]).replace(" ", ""), pol) for cid, pol in ci.cfg.facts_at(ap[0])] if ap else []
-    f2.check(("laPrm_.is_x_int&&!laPrm_.fUsePeriod", True) in fa and any(t.replace("(int)", "").replace("(size_t)", "").replace("(unsignedlong)", "") in
-             ("N<=laPrm_.plPoints.size()",) and pol is True for t, pol in fa), "guards", short_loc(ci.loc),
+    fa = [(t.replace("(int)", "").replace("(size_t)", "").replace("(unsignedlong)", ""), pol)
+          for t, pol in norm_facts(ci, ap[0], loop_conditions=False, canon=True)] if ap else []
+    f2.check(("laPrm_.is_x_int", True) in fa and ("laPrm_.fUsePeriod", False) in fa and ("laPrm_.plPoints.size()<N", False) in fa, "guards", short_loc(ci.loc),
              "taken only for integer x, non-periodic, N <= plPoints.size()", str(fa))
     loc = {v["name"]: render(kids(v)[0]).replace(" ", "").replace("std::", "") for v in ci.walk() if v["k"] == "VarDecl" and kids(v)}
     f2.check(loc.get("x0") == "ceil(laPrm_.grDomOut.lbx)" and loc.get("xN") == "floor(laPrm_.grDomOut.ubx)" and loc.get("N") in ("int(xN-x0+1)", "(int)xN-x0+1", "(int)(xN-x0+1)"),
@@ -436,6 +436,7 @@ def run(rep, ctx):
         desc = "?"
         if il:
             a, b = [strip(z) for z in kids(il[0])]
+            b = strip(expand_locals(me, b))          # a one-line chord helper / lambda is looked through
             desc = "{%s, %s}" % (render(a), render(b))
             # abscissa of the function value
             xa = None
